@@ -53,6 +53,29 @@ func (l *ElemLoop) IsElem(e ast.Expr) bool {
 	return ok && v == l.index && k == -l.off
 }
 
+// Offset reports that e is B[i+k] for the loop's slice B and returns the distance of that element from the element of
+// the current iteration in index order (0: the current element, +1: the element with the next higher index).
+func (l *ElemLoop) Offset(e ast.Expr) (int64, bool) {
+	ix, ok := ast.Unparen(e).(*ast.IndexExpr)
+	if !ok || l.index == nil || !sameExpr(l.info, ix.X, l.Base) {
+		return 0, false
+	}
+	v, k, ok := varPlusConst(l.info, ix.Index)
+	if !ok || v != l.index {
+		return 0, false
+	}
+	return k + l.off, true
+}
+
+// IsPos reports whether e evaluates to the position (index in B) of the element of the current iteration.
+func (l *ElemLoop) IsPos(e ast.Expr) bool {
+	if l.index == nil {
+		return false
+	}
+	v, k, ok := varPlusConst(l.info, e)
+	return ok && v == l.index && k == -l.off
+}
+
 // ElemVar returns the range value variable, if the loop has one.
 func (l *ElemLoop) ElemVar() types.Object { return l.value }
 
@@ -223,12 +246,11 @@ func elemLoopOf(info *types.Info, s ast.Stmt) (*ElemLoop, bool) {
 	case *ast.RangeStmt:
 		l := &ElemLoop{Stmt: s, Base: t.X, Body: t.Body, info: info}
 		if c, ok := ast.Unparen(t.X).(*ast.CallExpr); ok {
-			fn, isFn := CalleeOf(info, c).(*types.Func)
-			if !isFn || fn.Name() != "Backward" || fn.Pkg() == nil || fn.Pkg().Path() != "slices" || len(c.Args) != 1 {
-				return nil, false // ranging over a call result: not a slice we can name
+			// slices.Backward(B): descending over B; any other call: ascending over its (unnamed) result
+			if fn, isFn := CalleeOf(info, c).(*types.Func); isFn && fn.Name() == "Backward" && fn.Pkg() != nil && fn.Pkg().Path() == "slices" && len(c.Args) == 1 {
+				l.Desc = true
+				l.Base = c.Args[0]
 			}
-			l.Desc = true
-			l.Base = c.Args[0]
 		}
 		// only slices and arrays (maps have no order, channels/funcs/ints are not element loops)
 		if tv, ok := info.Types[l.Base]; ok {
